@@ -69,14 +69,17 @@ GRID_CFG = {
                         {"swapped_normals": [1]}]),
               ("screen22", [{"include_boundary_dofs": True}, {},
                             {"segments": [1], "include_boundary_dofs": True, "truncate_at_segment_edge": False}]),
-              ("tet", [{}, {"segments": [1, 2], "include_boundary_dofs": True}])],
+              ("tet", [{}, {"segments": [1, 2], "include_boundary_dofs": True}, {"swapped_normals": [0, 2]}])],
     "thorough": [("octa", [{}, {"segments": [1], "include_boundary_dofs": True}, {"segments": [1]},
-                           {"segments": [0], "include_boundary_dofs": True, "truncate_at_segment_edge": False}]),
-                 ("cube12", [{}, {"segments": [2], "include_boundary_dofs": True}, {"segments": [0, 1]}]),
+                           {"segments": [0], "include_boundary_dofs": True, "truncate_at_segment_edge": False},
+                           {"swapped_normals": [1]}, {"swapped_normals": [0]}]),
+                 ("cube12", [{}, {"segments": [2], "include_boundary_dofs": True}, {"segments": [0, 1]},
+                             {"swapped_normals": [1]}, {"swapped_normals": [0, 2]}]),
                  ("screen22", [{"include_boundary_dofs": True}, {},
                                {"segments": [1], "include_boundary_dofs": True, "truncate_at_segment_edge": False},
                                {"segments": [0], "include_boundary_dofs": True}]),
-                 ("tet", [{}, {"segments": [1, 2], "include_boundary_dofs": True}, {"segments": [2]}])],
+                 ("tet", [{}, {"segments": [1, 2], "include_boundary_dofs": True}, {"segments": [2]},
+                          {"swapped_normals": [1]}, {"swapped_normals": [0, 2]}])],
 }
 CLOSED = {"octa", "cube12", "tet"}
 
@@ -141,7 +144,7 @@ def run_family(api, grid_name, cfgs, ks, results, fails, tol, tag):
                         fails.append({"signature": "C06:hypersingular-decomposition:" + kind,
                                       "data": dict(data, rel_err=err),
                                       "what": "%s hypersingular matrix differs from C'V0C -/+ k^2 N'V1N by %.2e" % (kind, err)})
-                    if kind == "laplace" and grid_name in CLOSED and kw == {}:
+                    if kind == "laplace" and grid_name in CLOSED and set(kw) <= {"swapped_normals"}:
                         r = float(np.abs(W @ np.ones(W.shape[1])).max() / np.abs(W).max())
                         results["W_times_one"] = max(results.get("W_times_one", 0.0), r)
                         results["n"] += 1
@@ -200,5 +203,22 @@ def run(cfg):
         for gname, cfgs in GRID_CFG["thorough"][:2]:
             run_family(api, gname, cfgs, ks, results, fails, 1e-10, "numba")
         symmetry_refinement(api, "octa", 1.25 + 0.25j, results, fails, (2, 4, 6), "numba")
+    # the exact configurations on which the correspondence disagreed (if any), with the real kernels
+    for fc in cfg.get("focus") or []:
+        kind = {"lap_hyp": "laplace", "helm_hyp": "helmholtz", "modhelm_hyp": "modified", "efield": "maxwell",
+                "mfield": None, "slp": None, "slp_c": None}.get(fc.get("op"))
+        if kind is None:
+            continue
+        k = fc.get("k")
+        if k is not None:
+            k = complex(k[0], k[1])
+            if kind != "helmholtz" and kind != "maxwell":
+                k = k.real
+            elif k.imag == 0 and kind == "helmholtz":
+                k = k.real
+        api.GLOBAL_PARAMETERS.quadrature.regular = 3
+        api.GLOBAL_PARAMETERS.quadrature.singular = 2
+        with bc.PurePython(), np.errstate(all="ignore"):
+            run_family(api, fc["mesh"], [fc.get("kw") or {}], [(kind, k)], results, fails, 1e-10, "python-body/focus")
     n = results.pop("n")
     return {"evaluations": n, "worst": results, "failures": fails}
